@@ -28,7 +28,7 @@ META = dict(
                "of the channel (precondition, exactly the missing ancestry arrives, closure, records unchanged, the gain of a "
                "directive is independent of the common ancestor chosen as bundle base) and that the specified observation "
                "satisfies the observation laws. A seeded sample of those graphs (all of them up to 4 revisions in thorough) "
-               "is materialised with six edit schedules and every (base, target) pair is written, installed and compared "
+               "is materialised with one of six edit schedules (three in thorough) and every (base, target) pair is written, installed and compared "
                "testament by testament in both bundle formats; directive cases are round-tripped in all twelve field "
                "combinations, verified, tampered and merged both ways. Every recorded execution is judged by the same TLA+ "
                "laws. Small-scope exhaustion of the model plus executed conformance; the byte formats themselves are "
@@ -48,7 +48,7 @@ EXOTIC = (None, "mlprop", "kind")
 MD_ZONES = (3600, 0, -18000, 19800, -1800)      # the directive's own time zone (whole seconds of time: the format's resolution)
 # how much of the exported case table is replayed (histories; tamper positions, directive cases, merged combinations per history)
 SIZES = {"quick": dict(small=13, four=30, exotic=6, ntamper=2, nmd=2, nmerge=1),
-         "thorough": dict(five=150, exotic=40, ntamper=3, nmd=3, nmerge=2)}
+         "thorough": dict(pats=3, five=100, exotic=30, ntamper=3, nmd=3, nmerge=2)}
 
 
 def gen_cfg(maxrev, inv=("LawsHoldOnSpec",)):
@@ -74,7 +74,7 @@ def history(P, pat, exotic=None):
         if not ps:
             t = {"d": ("d", "directory", None, False), "a": ("a", "file", _text(k), False),
                  "b": ("d/b", "file", b"B\x00%d\n\xff\xfe\n" % k, False), "l": ("l", "symlink", "a", False),
-                 "x": ("x", "file", b"#!/bin/sh\necho x\n", False)}
+                 "x": ("x", "file", b"#!/bin/sh\necho x\n", pat % 2 == 1)}       # the bit is toggled in both directions
         else:
             t = dict(trees["r%d" % ps[0]])
             for o in ps[1:]:
@@ -506,7 +506,7 @@ class Job:
             tamper_here = ntamper if (m in merge_combos or m["patch"] and m["bundle"] and m["src"] and m["msg"]) else 0
             if md2.patch is not None and tamper_here:
                 cand = _alnum_positions(md2.patch, 0, len(md2.patch))
-                for j in range(tamper_here):
+                for j in range(tamper_here if cand else 0):        # (an empty preview patch has nothing to tamper with)
                     pos = rng.choice(cand)
                     t = copy.copy(md2)
                     t.patch = _sub(md2.patch, pos)
@@ -660,37 +660,51 @@ def signatures(row, law):
 
 
 def selftest_rows(rows):
-    """Binding self-test: corrupted copies of good observations must be rejected by the Trace module, each by its law."""
-    b = next((r for r in rows if r["kind"] == "bundle" and r["impl"]["outcome"] == "ok" and len(r["impl"]["written"]) >= 2
-              and r["impl"]["before"] and all(t["outcome"] in ("rejected", "same") for t in r["impl"]["tamper"])), None)
-    m = next((r for r in rows if r["kind"] == "md" and r["c"]["merge"] and r["c"]["md"]["bundle"] and r["c"]["md"]["patch"]
-              and r["impl"]["mergeBundle"] and r["impl"]["mergeBundle"] == r["impl"]["mergeBranch"]
-              and len(r["impl"]["same"]) == 10 and r["impl"]["patchTamper"] and r["impl"]["bundleTamper"]
-              and all(t["outcome"] in ("rejected", "same") for t in r["impl"]["bundleTamper"])
-              and all(t == "failed" for t in r["impl"]["patchTamper"])), None)
+    """Binding self-test: the observation the SPECIFICATION predicts for a recorded case must be accepted by the Trace module,
+    corrupted copies of it must be rejected, each by its law."""
+    b = next((r for r in rows if r["kind"] == "bundle" and len(r["spec"]["written"]) >= 2 and r["c"]["base"]), None)
+    m = next((r for r in rows if r["kind"] == "md" and all(r["c"]["md"][k] for k in ("msg", "patch", "bundle")) and r["spec"]["lcas"]), None)
     if b is None or m is None:
-        raise core.MachineryError("binding self-test: no suitable recorded execution")
-    out = [(_slim(b), None), (_slim(m), None)]
+        raise core.MachineryError("binding self-test: no suitable recorded case")
+    P, n = b["c"]["P"], len(b["c"]["P"])
+    after = sorted(b["spec"]["after"])
+    tsrc = ["t%d" % k for k in range(1, n + 1)]
+    good_b = {"kind": "bundle", "c": b["c"], "impl": {
+        "outcome": "ok", "written": sorted(b["spec"]["written"]), "before": sorted(ancestry(P, b["c"]["base"])), "after": after,
+        "tsrc": tsrc, "ttgt": [tsrc[k - 1] if k in after else "" for k in range(1, n + 1)],
+        "tparents": [P[k - 1] if k in after else [] for k in range(1, n + 1)],
+        "tamper": [{"section": "x", "outcome": "rejected"}, {"section": "y", "outcome": "same"}]}}
+    mc = dict(m["c"], merge=True)
+    P = mc["P"]
+    lca = m["spec"]["lcas"][0]
+    good_m = {"kind": "md", "c": mc, "impl": {
+        "present": mc["md"], "same": ["revision_id", "testament_sha1", "time", "timezone", "target_branch", "base_revision_id",
+                                      "message", "patch", "bundle", "source_branch"],
+        "verify": "verified", "patchTamper": ["failed"], "bundleTamper": [{"section": "x", "outcome": "rejected"}],
+        "written": sorted(ancestry(P, mc["target"]) - ancestry(P, lca)), "before": sorted(ancestry(P, mc["submit"])),
+        "after": sorted(m["spec"]["after"]), "mergeBundle": "m", "mergeBranch": "m"}}
+    out = [(good_b, None), (good_m, None)]
 
     def probe(base, law, fn):
-        r = copy.deepcopy(_slim(base))
+        r = copy.deepcopy(base)
         fn(r["impl"])
         out.append((r, law))
-    last = b["impl"]["written"][-1]
-    probe(b, "installs", lambda o: o.__setitem__("outcome", "error: install: X: y"))
-    probe(b, "written", lambda o: o["written"].pop())
-    probe(b, "gained", lambda o: o["after"].remove(last))
-    probe(b, "attested", lambda o: o["ttgt"].__setitem__(last - 1, "0" * 20))
-    probe(b, "graph", lambda o: o["tparents"].__setitem__(last - 1, o["tparents"][last - 1] + [last]))
-    probe(b, "tamper", lambda o: o["tamper"].append({"section": "x", "outcome": "changed"}))
-    probe(m, "roundtrip", lambda o: o["same"].remove("message"))
-    probe(m, "roundtrip", lambda o: o["present"].__setitem__("bundle", False))
-    probe(m, "verify", lambda o: o.__setitem__("verify", "failed"))
-    probe(m, "patchtamper", lambda o: o["patchTamper"].append("verified"))
-    probe(m, "bundletamper", lambda o: o["bundleTamper"].append({"section": "x", "outcome": "changed"}))
-    probe(m, "mdwritten", lambda o: o["written"].append(99))
-    probe(m, "mdgained", lambda o: o["after"].pop())
-    probe(m, "merge", lambda o: o.__setitem__("mergeBranch", "other"))
+    last = good_b["impl"]["written"][-1]
+    probe(good_b, "installs", lambda o: o.__setitem__("outcome", "error: install: X: y"))
+    probe(good_b, "written", lambda o: o["written"].pop())
+    probe(good_b, "gained", lambda o: o["after"].remove(last))
+    probe(good_b, "attested", lambda o: o["ttgt"].__setitem__(last - 1, "0" * 20))
+    probe(good_b, "graph", lambda o: o["tparents"].__setitem__(last - 1, o["tparents"][last - 1] + [last]))
+    probe(good_b, "tamper", lambda o: o["tamper"].append({"section": "x", "outcome": "changed"}))
+    probe(good_b, "tamper", lambda o: o["tamper"].append({"section": "x", "outcome": "hang"}))
+    probe(good_m, "roundtrip", lambda o: o["same"].remove("message"))
+    probe(good_m, "roundtrip", lambda o: o.__setitem__("present", dict(o["present"], bundle=False)))
+    probe(good_m, "verify", lambda o: o.__setitem__("verify", "failed"))
+    probe(good_m, "patchtamper", lambda o: o["patchTamper"].append("verified"))
+    probe(good_m, "bundletamper", lambda o: o["bundleTamper"].append({"section": "x", "outcome": "changed"}))
+    probe(good_m, "mdwritten", lambda o: o["written"].append(99))
+    probe(good_m, "mdgained", lambda o: o["after"].pop())
+    probe(good_m, "merge", lambda o: o.__setitem__("mergeBranch", "other"))
     return out
 
 
@@ -755,8 +769,9 @@ def run(ctx):
             plans.append((h, j % NPAT, EXOTIC[1 + j % 2], SFMTS[(j // 2) % 2]))
     else:
         for h in small + four:
-            for pat in range(NPAT):
-                plans.append((h, pat, None, SFMTS[(pat + h["idx"]) % 2]))
+            for i in range(z["pats"]):
+                pat = (h["idx"] + 2 * i) % NPAT
+                plans.append((h, pat, None, SFMTS[(i + h["idx"]) % 2]))
         for j, h in enumerate(five[:z["five"]]):
             plans.append((h, j % NPAT, None, SFMTS[j % 2]))
         for j, h in enumerate(four[:z["exotic"] // 2] + five[z["five"]:z["five"] + z["exotic"] // 2]):
@@ -790,10 +805,36 @@ def run(ctx):
              "merged both ways; %d tamper positions per case; non-trivial = more than one carried revision or a carried "
              "merge (bundles), merged directive cases" % (
                  maxrev, "all graphs <= 3 and a seeded sample of %d four-revision graphs" % (z["four"] + z["exotic"]) if ctx.quick else
-                 "all graphs <= 4 with all six schedules and a seeded sample of %d five-revision graphs" % (z["five"] + z["exotic"] // 2), nmd, nmerge + 1, ntamper))
+                 "all graphs <= 4 with %d of the six schedules each and a seeded sample of %d five-revision graphs" % (z["pats"], z["five"] + z["exotic"] // 2), nmd, nmerge + 1, ntamper))
     ctx.assume("a directive's patch is compared after normalising line endings and trailing blanks (by design); tampering "
                "substitutes alphanumeric bytes only")
     for r in (rows[len(rows) // 3], rows[-1]):
         ctx.sample({"kind": r["kind"], "c": r["c"], "meta": r["meta"],
                     "impl": {k: v for k, v in r["impl"].items() if k not in ("tsrc", "ttgt")}})
     judge(ctx, rows)
+
+
+def replay(ctx, rep):
+    """Re-execute one recorded case on the current tree (same history, same tamper seed is not kept: positions are redrawn)."""
+    import random
+    env.init()
+    r = rep["replay"]
+    meta, c = r["meta"], r["c"]
+    os.chdir(ctx.workdir)
+    os.environ["RUST_BACKTRACE"] = "0"
+    job = Job({"P": c["P"], "idx": meta["hist"]}, meta["pat"], meta["exotic"], meta["sfmt"], ctx.workdir)
+    try:
+        rng = random.Random(ctx.seed)
+        if r["kind"] == "bundle":
+            o, info = job.bundle_case({"base": c["base"], "target": c["target"]}, c["fmt"], rng, 13)
+        else:
+            rows = job.md_cases({"submit": c["submit"], "target": c["target"], "lcas": r["spec"]["lcas"]}, [c["md"]],
+                                [c["md"]] if c["merge"] else [], rng, 4)
+            o = rows[0][1]
+        print(json.dumps(core.jsonable({k: v for k, v in o.items() if k not in ("tsrc",)}), indent=1))
+    finally:
+        job.close()
+    ctx.count(1, traces=1)
+    ctx.nontrivial("replay")
+    ctx.sample({"c": c, "meta": meta})
+    ctx.rule("replay of one recorded case")
